@@ -16,7 +16,8 @@ Inductive case :=
 | CSmallGamma2 (a x factor : float) (max : Z) (out : float)
 | CUpperFrac (a z factor : float) (max : Z) (out : float)
 | CFactTab (x : Z) (panicked : bool) (v : Z)            (* Factorial(x), x <= 20 (v = int64 of the result) *)
-| CFactBig (x : nat) (v : float)                        (* Factorial(x), x >= 21: round(Gamma(x+1)) vs x! *)
+| CFactBig (x : nat) (v : float)                        (* Factorial(x), x >= 21: round(Gamma(x+1)) vs x! within 2^-47 (32 ulp: Go's math.Gamma is
+                                                           10 ulp off at 157 and 16 ulp off at 167; round 1 allowed 8 ulp, which the thorough tier refuted) *)
 | CBern (n : nat) (v : float)                           (* BernoulliNumber(n) vs the nearest binary64 of the model rational *)
 | CLogInf (sub : bool) (a b out : float).               (* LogAdd/LogSub with a -Inf operand *)
 
@@ -63,7 +64,7 @@ Definition check (c : case) : bool :=
       end
   | CFactBig x v =>
       match Factorial (Z.of_nat x) with
-      | FactGamma arg => (arg =? Z.of_nat x + 1)%Z && rel_ok 49 (inject_Z (zfactZ x)) v
+      | FactGamma arg => (arg =? Z.of_nat x + 1)%Z && rel_ok 47 (inject_Z (zfactZ x)) v
       | _ => false
       end
   | CBern n v => nearest_ok (BernoulliNumber n) v
